@@ -25,6 +25,8 @@ RULES = {
     "U32VIEW": "get_hsketch_u32 is a function of self.values and a literal seed only, and the two structs use the same expression",
     "PANIC": "end_sketch / densify have no panic edge other than the failure report, the final consistency assertion and "
              "individually argued arithmetic/index edges",
+    "REINIT": "reinit re-establishes every field the sketching/finishing path mutates with the constructor's value (interleavings with "
+              "reinit: RESET rule of C13 on the two densified sketchers)",
     "DELEG": "sketch_slice = per-element sketch + densify when nb_empty > 0 (shared with C04)",
     "SEED": "densification generators are keyed by bin index, sketch size, pass number and constants only (shared with C04)",
 }
@@ -251,6 +253,8 @@ def run(ctx, facts):
         C04._dens_sketch(ctx, facts, prefix)
         C04.deleg_slice(ctx, facts, prefix + "sketch_slice", finisher="densify")
     ctx.floor("C09 densify write/copy instances", n, 10)
+    from . import C13
+    C13.require_verified_reset(ctx, facts, [C13.OD, C13.RD], "REINIT")
     u32view(ctx, facts)
     table = {k: v for k, v in C04.SEED_TABLE.items() if "densminhash" in k}
     ns = check_seeds(ctx, facts, "SEED", table)
